@@ -1413,6 +1413,444 @@ def custom_cases(ctx):
 
 
 # ---------------------------------------------------------------------------
+# CUSTOM stream: the delegation rules of CustomInner / CustomNorm / CustomDist (weighting.py)
+# and their composition with the boundary scaling of DiscretizedSpace, modelled by
+# cInner / cNorm / cDist / cdInner / cdNorm / cdDist (Model/Weighting.lean, driver ops
+# cinner / cnorm / cdist).  The user callables come from three families the driver can execute:
+#   inner = vdot(B v, B u) (non-diagonal Gram matrix), norm = max(w |u|),
+#   dist = min(cap, sum(w |u - v|)) (a metric that is not induced by a norm).
+# case description: dict(k, ck, dtype, geom, B | w, cap, vseed); geom:
+#   T: shape     P: nested list of component sizes     D: list of axes (n, a, b, gmin, gmax) or
+#   ('nonuniform', coords)
+
+CUSTOM_K = ['T', 'P', 'D-scaled', 'D-unscaled', 'D-nonuniform']
+CUSTOM_STRATA = ['custom/{}/{}/{}'.format(k, ck, op) for k in CUSTOM_K for ck in 'ind'
+                 for op in ('inner', 'norm', 'dist')]
+
+
+def _cflat(u):
+    """Flat C-order data of a tensor / discretized / (nested) product space element."""
+    if hasattr(u, 'parts'):
+        return np.concatenate([_cflat(p) for p in u.parts])
+    return np.asarray(u.asarray() if hasattr(u, 'asarray') else u).ravel()
+
+
+def _ctree_size(t):
+    return t if isinstance(t, int) else sum(_ctree_size(c) for c in t)
+
+
+def _ctree_space(t, dtype):
+    import odl
+    if isinstance(t, int):
+        return odl.tensor_space(t, dtype=dtype)
+    return odl.ProductSpace(*[_ctree_space(c, dtype) for c in t])
+
+
+def _ctree_elem(t, vals, dtype):
+    """nested lists matching the tree `t` from the flat list `vals`"""
+    if isinstance(t, int):
+        return list(vals[:t]), vals[t:]
+    out = []
+    for c in t:
+        e, vals = _ctree_elem(c, vals, dtype)
+        out.append(e)
+    return out, vals
+
+
+def custom_callable(c, calls):
+    ck = c['ck']
+    if ck == 'i':
+        B = np.asarray(c['B'], dtype=float)
+
+        def f(u, v):
+            calls.append('inner')
+            return np.vdot(B.dot(_cflat(v)), B.dot(_cflat(u)))
+        return {'inner': f}
+    w = np.asarray(c['w'], dtype=float)
+    if ck == 'n':
+        def g(u):
+            calls.append('norm')
+            return float(np.max(w * np.abs(_cflat(u))))
+        return {'norm': g}
+    cap = float(c['cap'])
+
+    def dd(u, v):
+        calls.append('dist')
+        return min(cap, float(np.sum(w * np.abs(_cflat(u) - _cflat(v)))))
+    return {'dist': dd}
+
+
+def custom_axes(c):
+    """[(n, fl, fr)] as Fractions from the GEOMETRY of the case (node positions and domain):
+    boundary cell fraction = (distance node..domain end) / stride + 1/2."""
+    out = []
+    for n, a, b, gmin, gmax in c['geom']:
+        a, b, gmin, gmax = [Fraction(t) for t in (a, b, gmin, gmax)]
+        if n == 1:
+            out.append((1, Fraction(1), Fraction(1)))
+        else:
+            h = (gmax - gmin) / (n - 1)
+            out.append((n, Fraction(1, 2) + (gmin - a) / h, Fraction(1, 2) + (b - gmax) / h))
+    return out
+
+
+def custom_build(c, calls):
+    import odl
+    kw = custom_callable(c, calls)
+    k, dtype = c['k'], c['dtype']
+    if k == 'T':
+        return odl.tensor_space(tuple(c['geom']), dtype=dtype, **kw)
+    if k == 'P':
+        return odl.ProductSpace(*[_ctree_space(t, dtype) for t in c['geom']], **kw)
+    if k == 'D-nonuniform':
+        part = odl.nonuniform_partition(*[np.asarray(cv, dtype=float) for cv in c['geom']])
+    else:
+        grid = odl.uniform_grid([g[3] for g in c['geom']], [g[4] for g in c['geom']],
+                                [g[0] for g in c['geom']])
+        part = odl.RectPartition(odl.IntervalProd([g[1] for g in c['geom']],
+                                                  [g[2] for g in c['geom']]), grid)
+    return odl.DiscretizedSpace(part, odl.tensor_space(part.shape, dtype=dtype, **kw))
+
+
+def custom_size(c):
+    k = c['k']
+    if k == 'T':
+        return int(np.prod(c['geom']))
+    if k == 'P':
+        return _ctree_size(c['geom'])
+    if k == 'D-nonuniform':
+        return int(np.prod([len(cv) for cv in c['geom']]))
+    return int(np.prod([g[0] for g in c['geom']]))
+
+
+def custom_elem(c, space, vals):
+    k = c['k']
+    arr = np.asarray(vals, dtype=c['dtype'])
+    if k == 'P':
+        e, rest = _ctree_elem(c['geom'], list(arr), c['dtype'])
+        return space.element(e)
+    return space.element(arr.reshape(space.shape))
+
+
+def custom_wire(c, op, X, Y=None):
+    k = c['k']
+    n = custom_size(c)
+    if k in ('T', 'P'):
+        g = 'k={} n={}'.format(k, n)
+    elif k == 'D-nonuniform':
+        g = 'k=D u=0 ax=' + ';'.join('{},1,1'.format(len(cv)) for cv in c['geom'])
+    else:
+        g = 'k=D u=1 ax=' + ';'.join('{},{},{}'.format(a[0], fs(a[1]), fs(a[2]))
+                                     for a in custom_axes(c))
+    if c['ck'] == 'i':
+        cu = 'ck=i B=' + core.fmat(c['B'])
+    elif c['ck'] == 'n':
+        cu = 'ck=n w=' + core.fl(c['w'])
+    else:
+        cu = 'ck=d w={} cap={}'.format(core.fl(c['w']), fs(c['cap']))
+    line = '{} {} {} x={}'.format(op, g, cu, cwire(X))
+    if Y is not None:
+        line += ' y=' + cwire(Y)
+    return line
+
+
+def custom_zoo(ctx):
+    rng = ctx.rng
+    out = []
+    reps = 1 if ctx.quick else 4
+
+    def dy(lo=-8, hi=8, den=4):
+        return rng.randint(lo, hi) / float(den)
+
+    for rep in range(reps):
+        for k in CUSTOM_K:
+            for ck in 'ind':
+                c = {'k': k, 'ck': ck}
+                c['dtype'] = rng.choice(['float64', 'complex128']) if ck == 'i' else 'float64'
+                if k == 'T':
+                    c['geom'] = rng.choice([[rng.randint(2, 6)], [2, rng.randint(2, 3)]])
+                elif k == 'P':
+                    c['geom'] = rng.choice([[rng.randint(1, 3), rng.randint(1, 3)],
+                                            [[1, rng.randint(1, 2)], rng.randint(1, 3)],
+                                            [2, [[1, 1], 2]]])
+                elif k == 'D-nonuniform':
+                    nd = rng.choice([1, 2])
+                    c['geom'] = [sorted(rng.sample([0.0, 0.5, 0.75, 1.5, 2.0, 3.25, 4.0],
+                                                   rng.randint(3, 4))) for _ in range(nd)]
+                    if all(np.allclose(np.diff(cv), np.diff(cv)[0]) for cv in c['geom']):
+                        c['geom'][0] = [0.0, 0.5, 2.0]
+                else:
+                    nd = rng.choice([1, 2])
+                    geom = []
+                    for ax in range(nd):
+                        n = rng.randint(2, 4)
+                        gmin = float(rng.randint(-2, 2))
+                        h = rng.choice([0.5, 1.0, 2.0])
+                        gmax = gmin + h * (n - 1)
+                        if k == 'D-unscaled':
+                            offs = (0.5, 0.5)          # fractions exactly 1
+                        else:
+                            # fractions 1/2 (node on the boundary), 9/4 (exact square root),
+                            # 3/4, 1, 5/2
+                            offs = tuple(rng.choice([0.0, 1.75, 0.25, 0.5, 2.0])
+                                         for _ in range(2))
+                        geom.append((n, gmin - offs[0] * h, gmax + offs[1] * h, gmin, gmax))
+                    if k == 'D-scaled' and all(g[1] == g[3] - 0.5 * (g[4] - g[3]) / (g[0] - 1) and
+                                               g[2] == g[4] + 0.5 * (g[4] - g[3]) / (g[0] - 1)
+                                               for g in geom):
+                        g = geom[0]
+                        geom[0] = (g[0], g[3], g[2], g[3], g[4])   # left node on the boundary
+                    c['geom'] = geom
+                n = custom_size(c)
+                if ck == 'i':
+                    # unit upper/lower triangular mix: invertible, non-diagonal Gram matrix
+                    B = [[0.0] * n for _ in range(n)]
+                    for i in range(n):
+                        B[i][i] = float(rng.choice([1, 2, -1, 0.5]))
+                        for j in range(i + 1, n):
+                            if rng.random() < 0.6:
+                                B[i][j] = float(rng.randint(-2, 2)) / 2.0
+                    if n >= 2 and all(B[i][j] == 0 for i in range(n) for j in range(n) if i != j):
+                        B[0][n - 1] = 1.0
+                    c['B'] = B
+                else:
+                    c['w'] = [rng.choice([0.5, 1.0, 2.0, 3.0, 0.25]) for _ in range(n)]
+                    if ck == 'd':
+                        c['cap'] = rng.choice([1.0, 4.0, 16.0, 1024.0])
+                c['vseed'] = rng.getrandbits(32)
+                out.append(c)
+    return out
+
+
+def custom_scaled(c):
+    return c['k'] == 'D-scaled'
+
+
+def custom_exact(c):
+    """All floating-point operations of the code are exact on the case's dyadic data: no
+    boundary factor frac ** (1/2) that is irrational."""
+    if not custom_scaled(c) or c['ck'] != 'i':
+        return True
+    for _, fl_, fr_ in custom_axes(c):
+        for f in (fl_, fr_):
+            r = math.sqrt(float(f))
+            if Fraction(r) ** 2 != f:
+                return False
+    return True
+
+
+def run_custom_case(ctx, c, lines, recs, collect=True):
+    """Oracle on the real code (axioms the docstrings of the Custom* classes promise for the
+    derived quantities, NotImplementedError where nothing can be derived, reference values in
+    Fractions for spaces without boundary scaling) and the protocol lines for the model."""
+    problems = []
+    calls = []
+    k, ck = c['k'], c['ck']
+    tag = '{}/{}'.format(k, ck)
+
+    def bad(what, detail):
+        problems.append((what, detail))
+        ctx.violation('custom-stream {} :: {}'.format(tag, what), str(detail)[:400],
+                      {'cstream': c})
+
+    o = outcome(lambda: custom_build(c, calls))
+    if o[0] != 'ok':
+        bad('construction', o)
+        return problems
+    space = o[1]
+    n = custom_size(c)
+    vr = random.Random(c['vseed'])
+    cplx = c['dtype'] == 'complex128'
+
+    def vals():
+        if cplx:
+            return [complex(vr.randint(-8, 8) / 4.0, vr.randint(-4, 4) / 2.0) for _ in range(n)]
+        return [vr.randint(-8, 8) / 4.0 for _ in range(n)]
+    X, Y, Z = vals(), vals(), vals()
+    if all(v == 0 for v in X):
+        X[0] = 1.0
+    a = complex(vr.randint(-4, 4) / 2.0, vr.randint(-2, 2)) if cplx else vr.randint(-6, 6) / 2.0
+    if a == 0:
+        a = -1.5
+    oe = outcome(lambda: [custom_elem(c, space, v) for v in (X, Y, Z)])
+    if oe[0] != 'ok':
+        bad('element', oe)
+        return problems
+    x, y, z = oe[1]
+    # expected exponent of the weighting (CustomInner 2.0, CustomNorm / CustomDist 1.0)
+    oexp = outcome(lambda: float(space.exponent))
+    if oexp != ('ok', 2.0 if ck == 'i' else 1.0):
+        bad('exponent', oexp)
+
+    def called(op, f, name):
+        del calls[:]
+        r = outcome(f)
+        if r[0] == 'ok' and name not in calls:
+            bad(op + '-callable-not-called', calls[:4])
+        return r
+
+    def num(r):
+        v = r[1]
+        return complex(v) if isinstance(v, (complex, np.complexfloating)) else float(v)
+
+    exact = custom_exact(c)
+    rel = 0.0 if exact else 1e-12
+
+    def eq(u, v, scale=0.0):
+        return abs(u - v) <= rel * max(abs(u), abs(v), scale)
+
+    # ---- inner
+    r_in = called('inner', lambda: x.inner(y), 'inner')
+    if ck != 'i':
+        if r_in[0] != 'err:notimpl':
+            bad('inner-must-raise-NotImplementedError', r_in)
+    elif r_in[0] != 'ok':
+        bad('inner-raises', r_in)
+    else:
+        ixy = num(r_in)
+        o2 = outcome(lambda: (num(('ok', y.inner(x))), num(('ok', x.inner(x))),
+                              num(('ok', (a * x + z).inner(y))), num(('ok', z.inner(y))),
+                              num(('ok', y.inner(y)))))
+        if o2[0] != 'ok':
+            bad('inner-raises', o2)
+        else:
+            iyx, ixx, ilin, izy, iyy = o2[1]
+            if not eq(ixy, np.conj(iyx)):
+                bad('conj-symmetry', '<x,y>={!r} conj<y,x>={!r} x={} y={}'.format(
+                    ixy, np.conj(iyx), X, Y))
+            if not eq(ilin, a * ixy + izy, scale=abs(a * ixy) + abs(izy)):
+                bad('linearity', '<a x+z,y>={!r} a<x,y>+<z,y>={!r}'.format(ilin, a * ixy + izy))
+            if abs(complex(ixx).imag) > rel * abs(ixx) or complex(ixx).real <= 0:
+                bad('positivity', '<x,x>={!r} x={}'.format(ixx, X))
+            if abs(ixy) ** 2 > complex(ixx).real * complex(iyy).real * (1 + 1e-12):
+                bad('cauchy-schwarz', '|<x,y>|^2={!r} <x,x><y,y>={!r}'.format(
+                    abs(ixy) ** 2, complex(ixx).real * complex(iyy).real))
+            if not custom_scaled(c):
+                # documented value: the user's own Gram form, in Fractions
+                Bf = [[Fraction(t) for t in row] for row in c['B']]
+
+                def mv(V):
+                    return [sum((Bf[i][j] * Fraction(complex(V[j]).real) for j in range(n)),
+                                Fraction(0)) + 0 for i in range(n)], \
+                           [sum((Bf[i][j] * Fraction(complex(V[j]).imag) for j in range(n)),
+                                Fraction(0)) for i in range(n)]
+                (xr, xi), (yr, yi) = mv(X), mv(Y)
+                ref = (sum(p * q + s * t for p, q, s, t in zip(xr, yr, xi, yi)),
+                       sum(s * q - p * t for p, q, s, t in zip(xr, yr, xi, yi)))
+                if cfrac(ixy) != ref:
+                    bad('inner-reference-value', 'got {!r} want {}'.format(ixy, ref))
+            if collect:
+                lines.append(custom_wire(c, 'cinner', X, Y))
+                recs.append((c, 'inner', ixy, True))
+    if ck != 'i' and collect:
+        lines.append(custom_wire(c, 'cinner', X, Y))
+        recs.append((c, 'inner', r_in[0], True))
+
+    # ---- norm
+    r_n = called('norm', lambda: x.norm(), 'inner' if ck == 'i' else 'norm')
+    if ck == 'd':
+        if r_n[0] != 'err:notimpl':
+            bad('norm-must-raise-NotImplementedError', r_n)
+    elif r_n[0] != 'ok':
+        bad('norm-raises', r_n)
+    else:
+        nx = float(r_n[1])
+        o2 = outcome(lambda: (float((a * x).norm()), float(y.norm()), float((x + y).norm())))
+        if o2[0] != 'ok':
+            bad('norm-raises', o2)
+        else:
+            nax, ny, nxy = o2[1]
+            tol = 0.0 if (exact and ck == 'n') else 1e-12
+            if abs(nax - abs(a) * nx) > tol * max(nax, abs(a) * nx):
+                bad('homogeneity', '||a x||={!r} |a| ||x||={!r}'.format(nax, abs(a) * nx))
+            if nxy > (nx + ny) * (1 + 1e-12):
+                bad('triangle', '||x+y||={!r} ||x||+||y||={!r}'.format(nxy, nx + ny))
+            if nx <= 0:
+                bad('norm-positivity', '||x||={!r} x={}'.format(nx, X))
+            if ck == 'i' and r_in[0] == 'ok':
+                ixx = complex(num(('ok', x.inner(x)))).real
+                if abs(nx * nx - ixx) > 1e-12 * max(nx * nx, abs(ixx)):
+                    bad('norm2-eq-inner', '||x||^2={!r} <x,x>={!r} x={}'.format(nx * nx, ixx, X))
+            if ck == 'n' and not custom_scaled(c):
+                ref = max(Fraction(wi) * abs(Fraction(v)) for wi, v in zip(c['w'], X))
+                if Fraction(nx) != ref:
+                    bad('norm-reference-value', 'got {!r} want {}'.format(nx, ref))
+        if collect:
+            lines.append(custom_wire(c, 'cnorm', X))
+            recs.append((c, 'norm', nx, exact))
+    if ck == 'd' and collect:
+        lines.append(custom_wire(c, 'cnorm', X))
+        recs.append((c, 'norm', r_n[0], True))
+
+    # ---- dist
+    r_d = called('dist', lambda: x.dist(y), {'i': 'inner', 'n': 'norm', 'd': 'dist'}[ck])
+    if r_d[0] != 'ok':
+        bad('dist-raises', r_d)
+    else:
+        dxy = float(r_d[1])
+        o2 = outcome(lambda: (float(y.dist(x)), float(x.dist(x)), float(x.dist(z)),
+                              float(z.dist(y))))
+        if o2[0] != 'ok':
+            bad('dist-raises', o2)
+        else:
+            dyx, dxx, dxz, dzy = o2[1]
+            if dyx != dxy:
+                bad('dist-symmetry', 'd(x,y)={!r} d(y,x)={!r}'.format(dxy, dyx))
+            if dxx != 0.0:
+                bad('dist-self', 'd(x,x)={!r}'.format(dxx))
+            if dxy > (dxz + dzy) * (1 + 1e-12):
+                bad('dist-triangle', 'd(x,y)={!r} d(x,z)+d(z,y)={!r}'.format(dxy, dxz + dzy))
+            if ck != 'd':
+                onm = outcome(lambda: float((x - y).norm()))
+                if onm[0] != 'ok' or onm[1] != dxy:
+                    bad('dist-eq-norm-of-difference', 'd(x,y)={!r} ||x-y||={!r}'.format(dxy, onm))
+            elif not custom_scaled(c):
+                ref = min(Fraction(c['cap']), sum(Fraction(wi) * abs(Fraction(u) - Fraction(v))
+                                                  for wi, u, v in zip(c['w'], X, Y)))
+                if Fraction(dxy) != ref:
+                    bad('dist-reference-value', 'got {!r} want {}'.format(dxy, ref))
+        if collect:
+            lines.append(custom_wire(c, 'cdist', X, Y))
+            recs.append((c, 'dist', dxy, exact))
+    ctx.case(('custom-stream', k, ck, c['dtype']), c)
+    return problems
+
+
+def compare_custom(ctx, recs, outs):
+    for (c, op, impl, exact), ans in zip(recs, outs):
+        case = {'op': 'c' + op, 'cstream': c}
+        if isinstance(impl, str):
+            if ans != impl:
+                ctx.disagree(case, impl, ans)
+                continue
+        elif not ans.startswith('ok v='):
+            ctx.disagree(case, impl, ans)
+            continue
+        elif op == 'inner':
+            tok = ans[len('ok v='):]
+            mr, mi = ([core.pfrac(u) for u in tok.split(':')] + [Fraction(0)])[:2]
+            if cfrac(impl) != (mr, mi):
+                ctx.disagree(case, impl, tok)
+                continue
+        else:
+            m = core.pfrac(ans[len('ok v='):])
+            if (Fraction(impl) != m) if exact else \
+                    (abs(float(m) - impl) > 1e-12 * max(abs(float(m)), abs(impl))):
+                ctx.disagree(case, repr(impl), repr(float(m)))
+                continue
+        ctx.hit('custom/{}/{}/{}'.format(c['k'], c['ck'], op))
+
+
+def run_custom(ctx):
+    lines, recs = [], []
+    for c in custom_zoo(ctx):
+        run_custom_case(ctx, c, lines, recs)
+    outs = core.run_driver('C02', lines)
+    compare_custom(ctx, recs, outs)
+
+
+
+# ---------------------------------------------------------------------------
 # HISTORY stream: spaces built from SHARED objects (one grid under several partitions, one
 # partition under several spaces, one weighting object under several spaces), queried
 # interleaved.  Every answer goes through the same oracle and model comparison as a freshly
@@ -1992,7 +2430,7 @@ def EXPECTED_BRANCHES(ctx):
         out.append('validation/reject/' + name)
         if has_neighbour:
             out.append('validation/accept/' + name)
-    return out + mag_strata()
+    return out + mag_strata() + CUSTOM_STRATA
 
 
 # ---------------------------------------------------------------------------
@@ -2023,6 +2461,7 @@ def run(ctx):
     custom_cases(ctx)
     outs = core.run_driver('C02', lines)
     compare(ctx, recs, outs)
+    run_custom(ctx)
 
 
 def search(ctx, broken):
@@ -2033,6 +2472,8 @@ def search(ctx, broken):
     try:
         run_validation(ctx, [], [], collect=False)
         run_magnitude(ctx)
+        for c in custom_zoo(ctx):
+            run_custom_case(ctx, c, [], [], collect=False)
         for case in large_cases(ctx):
             run_large(ctx, case)
         for rep in range(4):
@@ -2047,6 +2488,11 @@ def search(ctx, broken):
 
 
 def replay(ctx, case):
+    if 'cstream' in case:
+        before = len(ctx.violations)
+        pr = run_custom_case(ctx, case['cstream'], [], [], collect=False)
+        del ctx.violations[before:]
+        return '; '.join('{}: {}'.format(*q) for q in pr[:4])[:600] if pr else None
     if 'custom' in case:
         before = len(ctx.violations)
         custom_cases(ctx)
